@@ -51,12 +51,14 @@ class System:
         elif n == "insert":
             r = o.insert(a["i"], OBJ[a["x"]])
         elif n == "extend":
-            r = o.extend([OBJ[x] for x in a["xs"]])
+            xs = [OBJ[x] for x in a["xs"]]
+            r = o.extend(iter(xs)) if len(xs) == 2 else o.extend(xs)      # any iterable, also a one-shot iterator
         elif n == "setindex":
             o[a["i"]] = OBJ[a["x"]]
             r = None
         elif n == "setslice":
-            o[a["lo"]:a["hi"]] = [OBJ[x] for x in a["xs"]]
+            xs = [OBJ[x] for x in a["xs"]]
+            o[a["lo"]:a["hi"]] = iter(xs) if len(xs) == 2 else xs       # any iterable, as for a list
             r = None
         elif n == "grab":
             self.h = o
@@ -81,12 +83,19 @@ class System:
             nkw = a["nkw"]
             pos, kw = prs[:len(prs) - nkw], dict(prs[len(prs) - nkw:])
             # alternate between the mapping form and the pairs form
-            r = o.update(dict(pos) if len(pos) != 1 else pos, **kw)
+            r = o.update(**kw) if not pos else o.update(dict(pos) if len(pos) != 1 else pos, **kw)
+        elif n == "popkeydefault":
+            r = o.pop(KEY[a["k"]], OBJ[8])
         elif n == "popkey":
             r = o.pop(KEY[a["k"]])
         elif n == "replace":
             xs = [OBJ[x] for x in a["xs"]]
-            p.objects = {KEY[i]: x for i, x in enumerate(xs, 1)} if self.dict else xs
+            if self.dict:
+                mine = {KEY[i]: x for i, x in enumerate(xs, 1)}
+                p.objects = mine
+                mine["junk"] = "junk"       # the mapping handed in stays the caller's: the Selector is not affected
+            else:
+                p.objects = xs
             r = None
         elif n == "setvaluename":
             try:
